@@ -790,6 +790,8 @@ def run(rep, tier):
     rep.floor("refusal classes of ini_val_set", c17_audit.representable_rule(rep, u), 4)
     rep.floor("counted-string helpers in mem_utils.h", c17_audit.byte_string_rule(rep, u), 8)
     rep.floor("copies of the caller's value", c17_audit.value_overlap_rule(rep, u), 1)
+    from props import c12_audit
+    rep.floor("record growth obligations", c12_audit.record_realloc_rule(rep, u), 2)
     return driver.finish(
         rep, "other",
         "INI store, structural clauses: generator writes guarded by offset+pending <= capacity (grid evaluation of the guard), size "
